@@ -113,7 +113,9 @@ func (k Keeper) ToggleClient(
 	}
 
 	k.SetClientState(ctx, chainName, newClientState)
-	if err := clientState.Initialize(ctx, k.cdc, k.ClientStore(ctx, chainName), newConsensusState); err != nil {
+	// the new client is of another type: it is the new client state that has to validate the consensus state
+	// and to write the metadata its type needs
+	if err := newClientState.Initialize(ctx, k.cdc, k.ClientStore(ctx, chainName), newConsensusState); err != nil {
 		return err
 	}
 	k.SetClientConsensusState(ctx, chainName, newClientState.GetLatestHeight(), newConsensusState)
